@@ -30,6 +30,7 @@ type subject struct {
 	Name  string
 	Spec  *ukit.Spec
 	Units bool // has unit strings among its inputs
+	Bad   any  // the rejected raw value to use (default: the first map among the raw values that the schema rejects)
 }
 
 func subjects() []subject {
@@ -38,17 +39,23 @@ func subjects() []subject {
 	nestWithDefault.Props[0].Default = ukit.Str("{\"s\": \"d\"}")
 	ss := ukit.ScopeSpecs()
 	return []subject{
-		{"int/sec", ukit.WrapScope(&ukit.Spec{Kind: ukit.KInt, Units: "sec"}), true},
-		{"float/sec in list", ukit.WrapScope(&ukit.Spec{Kind: ukit.KList, Item: &ukit.Spec{Kind: ukit.KFloat, Units: "sec"}}), true},
-		{"enum/bytes", ukit.WrapScope(&ukit.Spec{Kind: ukit.KIntEnum, EnumI: []int64{1024, 2048}, Units: "bytes"}), true},
-		{"object with defaults", ukit.WrapScope(ukit.MapObjA("A")), false},
-		{"struct-mapped with sub-object defaults", ukit.WrapScope(ukit.ShapeSpecs()[5]), false},
-		{"struct-mapped with defaulted sub-object", ukit.WrapScope(nestWithDefault), false},
-		{"struct-mapped three levels deep with defaulted middle object", ukit.WrapScope(ukit.DeepShapeSpec()), false},
-		{"references", ss[0], false},
-		{"recursive references", ss[2], false},
-		{"one-of over references", ss[4], false},
-		{"treat-empty-as-default", ukit.WrapScope(ukit.ShapeSpecs()[8]), false},
+		{"int/sec", ukit.WrapScope(&ukit.Spec{Kind: ukit.KInt, Units: "sec"}), true, nil},
+		{"float/sec in list", ukit.WrapScope(&ukit.Spec{Kind: ukit.KList, Item: &ukit.Spec{Kind: ukit.KFloat, Units: "sec"}}), true, nil},
+		{"enum/bytes", ukit.WrapScope(&ukit.Spec{Kind: ukit.KIntEnum, EnumI: []int64{1024, 2048}, Units: "bytes"}), true, nil},
+		{"object with defaults", ukit.WrapScope(ukit.MapObjA("A")), false, nil},
+		{"struct-mapped with sub-object defaults", ukit.WrapScope(ukit.ShapeSpecs()[5]), false, nil},
+		{"struct-mapped with defaulted sub-object", ukit.WrapScope(nestWithDefault), false, nil},
+		{"struct-mapped three levels deep with defaulted middle object", ukit.WrapScope(ukit.DeepShapeSpec()), false, nil},
+		{"references", ss[0], false, nil},
+		{"recursive references", ss[2], false, nil},
+		{"one-of over references", ss[4], false, nil},
+		{"treat-empty-as-default", ukit.WrapScope(ukit.ShapeSpecs()[8]), false, nil},
+		// a rejection that comes from a property's own guard (disabled without a reason, as a received description
+		// states it): both threads are refused at the same place
+		{"disabled properties", ukit.WrapScope(&ukit.Spec{Kind: ukit.KObject, ID: "Dis", Props: []ukit.Prop{
+			{Name: "on", Type: &ukit.Spec{Kind: ukit.KString}},
+			{Name: "off", Type: &ukit.Spec{Kind: ukit.KString}, Disabled: true, DisabledNoReason: true},
+		}}), false, map[string]any{"on": "a", "off": "b"}},
 	}
 }
 
@@ -119,7 +126,9 @@ func inputsOf(sub subject) inputs {
 	}
 	sch := ukit.BuildScope(sub.Spec)
 	in.bad = "not a map"
-	if sub.Units {
+	if sub.Bad != nil {
+		in.bad = sub.Bad
+	} else if sub.Units {
 		switch {
 		case strings.Contains(sub.Name, "float"):
 			in.bad = map[string]any{"v": []any{"5 parsecs"}}
